@@ -15,6 +15,10 @@ PROOF_NOTE = ("Trusted: pyvc's Python semantics (A9), z3/cvc5 (A10), floats as r
 CHECKS["C16"] = dict(cat="proof", tech="contract-based deductive verification: symbolic execution of the real function ASTs against sidecar contracts, VCs discharged by z3/cvc5",
    text="Sidecar contracts on every ice-model method (index, gradient, depth_with_index, contains, attenuation_length of Antarctic/Uniform/Greenland/Arasim ice, LayeredIce dispatch) with symbolic model parameters; each obligation is generated from the current /repo source by pyvc and discharged by z3 for all inputs, array lengths and parameter values; counter-models are replayed natively.",
    note=PROOF_NOTE, ref="§5 C16")
+TECH = "contract-based deductive verification: symbolic execution of the real function ASTs against sidecar contracts, VCs discharged by z3/cvc5"
+CHECKS["C01"] = dict(cat="proof", tech=TECH,
+   text="Contracts on the closed-form z-integrals (they are antiderivatives of ds/dz, n ds/(c dz), tan(theta) by symbolic differentiation), their piecing at z_uniform, the direct/indirect composition, the Snell invariant and direction vectors, the trapezoid grids of the numeric tracer and the launch-angle conversion, for symbolic ice parameters and endpoints; obligations are generated from /repo's current source and discharged by z3 for all inputs.",
+   note=PROOF_NOTE + " 'The ray arrives' and the launch-angle clauses rest on the idealised brentq contract (A6); FTC (A3) links antiderivatives to line integrals.", ref="§5 C01")
 NOT_YET = {}
 def main():
     props = [json.loads(l) for l in open(os.path.join(HERE, "properties.jsonl"))]
